@@ -78,15 +78,14 @@ Hypothesis Hreg : r_templates (c_reg cf) = c04_templates p.
 Lemma go_template_walk k t f1 st cenv text :
   go_callee_ok cf (c04_tout (c_ij cf) go_print_text p k) (k * c04_D p) ->
   (k * c04_D p + bdepth (ct_body t) < f1)%nat -> wok st -> agrees cenv st cenv -> envok cenv ->
-  template_mode (mode st) (ct_ae t) = ct_mode t ->
-  bout (c_ij cf) (ct_mode t) go_print_text cenv (c04_tout (c_ij cf) go_print_text p k) cenv (ct_body t) = Some text ->
+  bout (c_ij cf) (template_mode (mode st) (ct_ae t)) go_print_text cenv (c04_tout (c_ij cf) go_print_text p k) cenv (ct_body t) = Some text ->
   exists st' ws rv, walk cf (S f1) (t_node (c04_template t)) st = (Ok rv, st') /\ wrote st st' ws /\ concat_b ws = text /\ ctx st' = ctx st.
 Proof.
-  intros IH Hf Hg Ha Hc Hm E.
+  intros IH Hf Hg Ha Hc E.
   cbn [c04_template t_node]. rewrite walk_unfold. cbn [walk_node pos_of].
   unfold mbind at 1. cbn [modify].
   set (st3 := set_mode (set_cur st 0) (template_mode (mode (set_cur st 0)) (ct_ae t))).
-  assert (M3 : mode st3 = ct_mode t) by exact Hm.
+  assert (M3 : mode st3 = template_mode (mode st) (ct_ae t)) by reflexivity.
   assert (C3 : ctx st3 = ctx st) by reflexivity.
   assert (S3 : wsame st st3) by (repeat split).
   destruct (go_block cf cenv (c04_tout (c_ij cf) go_print_text p k) (k * c04_D p) IH (ct_body t) f1 st3 text cenv
@@ -112,27 +111,31 @@ Proof.
   assert (S2 : wsame st st2) by (repeat split).
   assert (A2 : agrees cenv st2 cenv).
   { split; [intro q; rewrite C2, sc_enter_lookup by exact Hn; apply Hl|rewrite C2; apply sc_enter_dinv; assumption]. }
-  destruct (go_template_walk k t f1 st2 cenv text IH ltac:(lia) (wsame_wok _ _ S2 Hg) A2 Hc eq_refl E) as (st4 & ws & rv & E4 & W4 & T4 & X4).
+  destruct (go_template_walk k t f1 st2 cenv text IH ltac:(lia) (wsame_wok _ _ S2 Hg) A2 Hc E) as (st4 & ws & rv & E4 & W4 & T4 & X4).
   rewrite E4.
   eexists _, ws, VUndef. split; [reflexivity|].
   split; [apply (wrote_r _ st4); [exact (wrote_l _ _ _ _ S2 W4)|repeat split]|].
   split; [exact T4|]. split; reflexivity.
 Qed.
 
+(* the subset semantics does not distinguish autoescape "unspecified" (0) from "on" (1): both escape (the two print
+   functions are convertible) *)
+Lemma bout_mode01 ij dv cl env b : bout ij 1 go_print_text dv cl env b = bout ij 0 go_print_text dv cl env b.
+Proof. reflexivity. Qed.
+
 (* (Go) the entry point: Renderer.Execute of a template of the program with data (a map of core values) and no write budget
    succeeds and the Write calls it makes concatenate to the text of the subset semantics.  Execute starts in autoescape
-   mode "on" when the namespace does not say (entry_mode) while a call inherits "unspecified": both escape, but the
-   generator's mode is the call's, so the statement is for templates whose mode is the same either way *)
+   mode "on" when the namespace does not say (entry_mode) while a call inherits "unspecified" -- the mode the generator and
+   c04_tout use --: both escape (bout_mode01), so the text is the same *)
 Theorem go_render_correct k name t data_id data first_id text fuel :
   c04_find p name = Some t ->
-  template_mode (entry_mode (ct_ns_ae t)) (ct_ae t) = ct_mode t ->
   forallb (fun kv => core_value (snd kv)) data = true ->
   c04_tout (c_ij cf) go_print_text p (S k) name (fun q => assoc_s q data) = Some text ->
   (S k * c04_D p <= fuel)%nat ->
   let r := render cf fuel name data_id data None None first_id in
   rr_outcome r = Ok tt /\ concat_b (rr_writes r) = text.
 Proof.
-  intros Ef Hm Hcore E Hf. cbn [c04_tout] in E. rewrite Ef in E.
+  intros Ef Hcore E Hf. cbn [c04_tout] in E. rewrite Ef in E.
   pose proof (c04_find_depth p name t Ef) as Hd. rewrite Nat.mul_succ_l in Hf. unfold c04_D in Hf at 2.
   destruct fuel as [|f1]; [lia|].
   cbn zeta. unfold render. rewrite Hreg, (c04_find_template p name t Ef).
@@ -145,7 +148,10 @@ Proof.
   { split; [intro q; change (ctx st0) with (sc_enter (new_scope data_id data)); rewrite sc_enter_lookup by discriminate; apply Hl|].
     change (ctx st0) with (sc_enter (new_scope data_id data)). apply sc_enter_dinv; [discriminate|exact Hl]. }
   assert (W0 : wok st0) by (unfold wok; cbn; auto).
-  destruct (go_template_walk k t f1 st0 cenv text (go_call_correct k) ltac:(lia) W0 A0 Hc Hm E) as (st4 & ws & rv & E4 & W4 & T4 & X4).
+  assert (E' : bout (c_ij cf) (template_mode (mode st0) (ct_ae t)) go_print_text cenv (c04_tout (c_ij cf) go_print_text p k) cenv (ct_body t) = Some text).
+  { change (mode st0) with (entry_mode (ct_ns_ae t)). unfold ct_mode, call_mode in E. unfold template_mode, entry_mode in *.
+    destruct (ct_ae t =? 0); [|exact E]. destruct (ct_ns_ae t =? 0) eqn:Z0; [|exact E]. apply N.eqb_eq in Z0. rewrite Z0 in E. rewrite bout_mode01. exact E. }
+  destruct (go_template_walk k t f1 st0 cenv text (go_call_correct k) ltac:(lia) W0 A0 Hc E') as (st4 & ws & rv & E4 & W4 & T4 & X4).
   rewrite E4. cbn [rr_outcome rr_writes].
   destruct (wrote_out st0 st4 ws eq_refl W4) as [_ Ho]. rewrite Ho. cbn [out st0 init_state]. rewrite app_nil_r, rev_involutive.
   split; [reflexivity|exact T4].
